@@ -1,6 +1,7 @@
 package main
 
 import (
+	"os"
 	"fmt"
 	"go/types"
 	"sort"
@@ -135,6 +136,25 @@ func VerifyFuncMode(prog *Prog, fc *FuncContract, concretize int) (res *FuncResu
 		}
 		seenPC[o.PC] = true
 		res.PathGuards = append(res.PathGuards, &Obligation{Name: o.Name + "#reachable", Kind: "vacuity-sat", PC: o.PC, Goal: False(), NAssume: o.NAssume, Fn: o.Fn, Tags: o.Tags})
+	}
+	// diagnostic (VERIF_ANTECEDENTS=1): a clause "A ==> B" whose antecedent can never hold on the path to it says
+	// nothing; legitimate for some clauses (the function never does A), a hole for others. Listed, examined by hand.
+	if os.Getenv("VERIF_ANTECEDENTS") != "" {
+		for _, o := range vc.obls {
+			switch o.Kind {
+			case "post", "call-assert", "loop-keep", "loop-iter", "iterates":
+			default:
+				continue
+			}
+			if o.Goal == nil || o.Goal.Op != "=>" || len(o.Goal.Args) != 2 || hasQuantTerm(o.Goal.Args[0]) {
+				continue
+			}
+			pc := o.Goal.Args[0]
+			if o.PC != nil {
+				pc = And(o.PC, pc)
+			}
+			res.PathGuards = append(res.PathGuards, &Obligation{Name: o.Name + "#antecedent", Kind: "vacuity-sat", PC: pc, Goal: False(), NAssume: o.NAssume, Fn: o.Fn, Tags: o.Tags})
+		}
 	}
 	for _, b := range fn.Blocks {
 		res.Instrs += len(b.Instrs)
